@@ -22,6 +22,7 @@ var cfg = evid.Config{
 func TestProp(t *testing.T) {
 	r := evid.New(t, "C01", cfg)
 	addHistory(r)
+	addStress(r, 0, 0) // not run here (TestRace does); registered so that stress replay files can be replayed
 	r.Main()
 }
 
